@@ -3,6 +3,6 @@
 # Verifies that the tools the checks need are on PATH.
 set -e
 cd "$(dirname "$0")"
-for t in goto-cc goto-instrument cbmc python3 gcc g++; do command -v $t >/dev/null || { echo "missing tool: $t"; exit 1; }; done
+for t in goto-cc goto-instrument cbmc cvc5 python3 gcc g++; do command -v $t >/dev/null || { echo "missing tool: $t"; exit 1; }; done
 mkdir -p evidence replays
 echo "setup ok"
